@@ -18,6 +18,11 @@ class Obl:
         self.fn, self.line, self.expect, self.info = fn, line, expect, info or {}
 
 
+_MISSING = object()
+LAZY_HEAP = {}      # addr -> value: objects that are elements of symbolic sequences (shared by all states; a state
+                    # that writes to one gets its own copy in its heap, which takes precedence)
+
+
 class State:
     __slots__ = ("env", "pc", "heap", "ctl", "ret", "ghost", "pathid", "exc")
 
@@ -51,7 +56,10 @@ class State:
 
     def get(self, v):
         while isinstance(v, Ref):
-            v = self.heap[v.addr]
+            hv = self.heap.get(v.addr, _MISSING)
+            if hv is _MISSING:
+                hv = LAZY_HEAP[v.addr]      # elements of a symbolic sequence of objects/tables (allocated on demand)
+            v = hv
         return v
 
     def put(self, ref, val):
@@ -254,6 +262,8 @@ class Exec:
             return st.alloc(Obj(t.cls, f))
         if isinstance(t, dsl.DictT):
             return st.alloc(DictV({k: self.fresh_value(x, hint + "_" + k, st) for k, x in t.items.items()}))
+        if isinstance(t, dsl.FuncT) and tuple(t.args) == ("vec",):
+            return Func("vecfun", t.name)       # an opaque functional: vector -> real
         if isinstance(t, dsl.FuncT):
             f = self.ctx.uf(t.name, *([sort_of(ctx, a) for a in t.args] + [sort_of(ctx, t.ret)]))
             return Func("uf", f)
@@ -298,14 +308,49 @@ class Exec:
             st.assume(z3.ForAll([a], L(a) >= 0))
             Es = {}
             for c, ct in t.cols.items():
-                Es[c] = z3.Function(fresh_name(hint + "_" + c), I, I, sort_of(ctx, ct))
+                if isinstance(ct, dsl._NReal):
+                    Es[c] = (z3.Function(fresh_name(hint + "_" + c), I, I, R),
+                             z3.Function(fresh_name(hint + "_" + c + "_null"), I, I, B))
+                else:
+                    Es[c] = (z3.Function(fresh_name(hint + "_" + c), I, I, sort_of(ctx, ct)), None)
+
+            def cell(E, Nn, k):
+                if Nn is None:
+                    return lambda j: E(to_z3(k), to_z3(j))
+                return lambda j: NF(Nn(to_z3(k), to_z3(j)), E(to_z3(k), to_z3(j)))
             return lambda k, L=L, Es=Es, t=t: Tab(
-                L(to_z3(k)), {c: (lambda j, E=E, k=k: E(to_z3(k), to_z3(j))) for c, E in Es.items()},
+                L(to_z3(k)), {c: cell(E, Nn, k) for c, (E, Nn) in Es.items()},
                 Idx(hint), dict(t.cols))
+        if isinstance(t, dsl.DictT):
+            if t.items:
+                raise Unsupported("sequence of non-empty dicts")
+
+            def dict_at(k):
+                addr = fresh_name("a")
+                LAZY_HEAP[addr] = DictV({})
+                return Ref(addr)
+            return dict_at
+        if isinstance(t, dsl.ObjT):
+            fs = {k: self.fresh_elems(ft, hint + "_" + k, st) for k, ft in t.fields.items()}
+
+            def obj_at(k, t=t, fs=fs):
+                addr = fresh_name("a")
+                fv = {}
+                for f, g in fs.items():
+                    x = g(k)
+                    if isinstance(x, (Tab, Vec, DictV, ListV, Obj)):
+                        a2 = fresh_name("a")
+                        LAZY_HEAP[a2] = x
+                        x = Ref(a2)
+                    fv[f] = x
+                LAZY_HEAP[addr] = Obj(t.cls, fv)
+                return Ref(addr)
+            return obj_at
         raise Unsupported("fresh elements of type %r" % (t,))
 
     # ------------------------------------------------------------------ truthiness
     def truth(self, v, st):
+        ref0 = v
         v = st.get(v)
         if v is None:
             return False
@@ -338,7 +383,7 @@ class Exec:
                 return v.n > 0 if is_z3(v.n) else v.n > 0
             raise Unsupported("truth value of an array/Series")
         if isinstance(v, Obj):
-            return self.lib.obj_truth(self, st, v)
+            return self.lib.obj_truth(self, st, v, ref0)
         if isinstance(v, (Func, Module)):
             return True
         raise Unsupported("truth of %r" % (v,))
@@ -680,6 +725,12 @@ class Exec:
         # special forms of the spec language
         if isinstance(e.func, ast.Name) and e.func.id in self.lib.SPECIAL_FORMS and e.func.id not in st.env:
             return self.lib.SPECIAL_FORMS[e.func.id](self, st, e)
+        if isinstance(e.func, ast.Name) and e.func.id == "super" and not e.args and "super" not in st.env:
+            # zero-argument super() inside a method: the receiver, seen from the defining class's parents
+            fr = next((f for f in reversed(self.frames) if f.node is not None and f.key != "spec"), None)
+            if fr is None or not fr.cls or not fr.node.args.args:
+                raise Unsupported("super() outside a method")
+            return [(st, SuperProxy(st.env[fr.node.args.args[0].arg], fr.cls))]
         if self.spec_depth and isinstance(e.func, ast.Name) and e.func.id in dsl.OPAQUE_FUNS:
             arg = st.get(self.ev1(e.args[0], st))
             if not isinstance(arg, Vec):
@@ -742,6 +793,10 @@ class Exec:
                 return r if isinstance(r, list) else [(st, r)]
             if f.kind == "uf":
                 return [(st, f.target(*[to_z3(st.get(a)) if not isinstance(a, NF) else a.val for a in args]))]
+            if f.kind == "vecfun":
+                if len(args) != 1 or kwargs:
+                    raise Unsupported("opaque functional %s called with other than one argument" % f.target)
+                return [(st, self.lib.vec_functional(self, st, f.target, st.get(args[0])))]
             if f.kind == "spec":
                 return self.call_spec(f.target, args, kwargs, st)
             if f.kind == "repo":
@@ -1088,7 +1143,7 @@ class Exec:
             st.pc.append(f)
         # ... and memoised ghost definitions (prefix-sum functions, selections), whose defining facts were just kept
         for gk, gv in s.ghost.items():
-            if gk == "sums" or gk.startswith(("psumdef:", "sum:")):
+            if gk == "sums" or gk.startswith(("psumdef:", "sum:", "vf:")):
                 st.ghost[gk] = gv
         return v
 
